@@ -918,7 +918,7 @@ func ComputeLocks(p *Prog) *LockInfo {
 											sites[method] = append(sites[method], throughReceiver(cls, method, recvLit))
 											continue
 										}
-										sites[mc] = append(sites[mc], cls)
+										sites[mc] = append(sites[mc], toFreeVarNames(cls, a))
 									}
 								}
 							} else {
@@ -931,7 +931,7 @@ func ComputeLocks(p *Prog) *LockInfo {
 					} else {
 						// dynamic call of a closure value defined in this function
 						if mc := closureOf(x.Call.Value); mc != nil {
-							sites[mc] = append(sites[mc], ls.Clone())
+							sites[mc] = append(sites[mc], toFreeVarNames(ls.Clone(), x.Call.Value))
 						}
 						for _, a := range x.Call.Args {
 							markEscapes(a, escapes)
@@ -1060,6 +1060,40 @@ func throughReceiver(ls Lockset, method *ssa.Function, recv ssa.Value) Lockset {
 }
 
 // closureOf returns the function of a MakeClosure (or bare function value) reaching v through single-store locals.
+// toFreeVarNames: inside a closure a captured variable is named after the variable; in the creating frame the value it
+// holds may be named differently (`cor := op.cor` - the lock is taken on `op.cor`, the closure sees `cor`). Locks whose
+// path starts with the path of the value bound to a captured variable are also offered under the variable's name.
+func toFreeVarNames(ls Lockset, fnValue ssa.Value) Lockset {
+	mk, ok := Resolve(fnValue).(*ssa.MakeClosure)
+	if !ok {
+		return ls
+	}
+	fn := mk.Fn.(*ssa.Function)
+	out := ls.Clone()
+	for i, b := range mk.Bindings {
+		if i >= len(fn.FreeVars) {
+			break
+		}
+		al, isAl := b.(*ssa.Alloc)
+		if !isAl {
+			continue
+		}
+		st := Stores(al)
+		if len(st) != 1 {
+			continue
+		}
+		vp := Path(st[0].Val)
+		name := fn.FreeVars[i].Name()
+		for k := range ls {
+			pth, mode, _ := strings.Cut(k, ":")
+			if pth == vp || strings.HasPrefix(pth, vp+".") {
+				out[name+pth[len(vp):]+":"+mode] = true
+			}
+		}
+	}
+	return out
+}
+
 func closureOf(v ssa.Value) *ssa.Function {
 	v = Resolve(v)
 	switch x := v.(type) {
